@@ -58,6 +58,14 @@ R = {
    text="KeyGen.tla transcribes the candidate filter, findMatch and CanProve and is checked by TLC over all candidate streams up to length 4 (6); SafePrimeWorkers.tla models every channel operation of GenerateConcurrent's workers, monitor and consumer and is checked for deadlock, double close, send after abandon and, under fairness, termination without leaked workers; TLC-generated schedules are established on the real goroutines through blocking hooks (with a steered entropy source), hundreds to thousands of toy keys are generated sequentially and concurrently, each key's well-formedness projection computed with math/big and each logged candidate decision validated by KeyGenTrace.tla; the error path runs in child processes.",
    note="Toy moduli 128..512 bits (thorough: 10 keys at 1024); 2-3 (4) workers in the model; hooks in /repo under build tag verif; schedules that cannot be steered are counted as diverged, not as violations.",
    tech="TLA+ state machines + TLC (safety, deadlock, liveness under fairness); schedule replay through scheduler-gate hooks; trace validation of recorded decisions"),
+ "C06": dict(engine="Issuance.tla", design="5/C06, 13",
+   text="TLC checks Integrity, Complete and RejectIsError on Issuance.tla: the issuance protocol with origin-tagged message fields for every configuration (random-blind, witness, keyshare contribution) under a network adversary that alters, substitutes from a parallel run, drops one field, or replays a whole message; every emitted case is executed with two real protocol runs over several attribute layouts, and the outcome class (credential / issuer rejects / user rejects, never a panic) and the content of a produced credential are compared with the specification.",
+   note="Single faults; the issuer role is the harness calling ProofList.Verify + IssueSignature on the verified ProofU.U as the application layer does; 1024-bit keys; 1..4 attributes.",
+   tech="TLA+ protocol/fault model + TLC exhaustive model checking; generated fault cases replayed on the real protocol code"),
+ "C11": dict(engine="NonRev.tla", design="5/C11, 13",
+   text="TLC explores all interleavings (depth 4, thorough 6) of prepare-cache / revoke-other / revoke-self / update-witness / prove / attack on one credential in NonRev.tla and checks its invariants; every history is executed on a real credential and accumulator chain: honest proofs must verify and embed the accumulator index the specification says they were made against (also after a cached commitment was refreshed), revocation must be reported, and 14 manipulations of each proof (fields, accumulator substitution, transplant from another holder, stripped part, disclosed witness attribute) must be rejected; known finding D10 is constructed deliberately.",
+   note="Sigma-protocol soundness assumed; freshness policy is the application's; same-index accumulators re-signed at another time are don't-care; D10 (map-order ambiguity of the witness attribute) is a known finding.",
+   tech="TLA+ state machine + TLC exhaustive exploration; generated histories and attacks replayed on the real code"),
  "C10": dict(engine="RevAuth.tla", design="5/C10, 13",
    text="TLC explores every update message an adversary can assemble from a genuine one by up to 2 mutations plus JSON/CBOR transport in RevAuth.tla and checks that the transcribed acceptance predicates imply authenticity; every single-mutation message (thorough: plus a seeded sample of double mutations) is materialised byte for byte and fed to Update.Verify, Witness.Update, EventList.Verify, Update.Prepend and Hash.Equal in memory and after real JSON/CBOR round trips.",
    note="Hash injective and signatures unforgeable in the model; chains of 3 events, 2 chains under one key; toy moduli; the unserialised SignedAccumulator.Accumulator memo is clear on received messages.",
